@@ -34,11 +34,11 @@ ASSUMPTIONS = ["preferences enums within their declared values (blockSizeID in {
                "LZ4F_uncompressedUpdate only with independent blocks (documented)", "malloc succeeds", "total input < 2^64 bytes"]
 
 def build(tier):
-    return {"lib": build_lib("framec"), "case_timeout": 600}
+    return {"lib": build_lib("framec"), "case_timeout": 1800}
 
 def gen_cases(tier, seed):
     rng = random.Random(seed * 1000003 + (3 if PID == "c03" else 7))
-    n_sess, n_one, n_big = {"quick": (100, 8, 3), "search": (400, 30, 10), "thorough": (200, 12, 10)}[tier]
+    n_sess, n_one, n_big = {"quick": (100, 8, 3), "search": (400, 30, 10), "thorough": (150, 12, 8)}[tier]
     cases = [{"kind": "session", "seed": rng.randrange(1 << 48), "tier": tier} for _ in range(n_sess)]
     cases += [{"kind": "oneshot", "seed": rng.randrange(1 << 48), "tier": tier, "count": 4 if tier != "thorough" else 2} for _ in range(n_one)]
     cases += [{"kind": "session", "seed": rng.randrange(1 << 48), "tier": tier, "big": True} for _ in range(n_big)]
